@@ -1,6 +1,7 @@
 #!/venv/bin/python
 """False-alarm test: apply a behaviour-preserving refactoring of /repo in a scratch worktree and run every
-registered quick check against it; all must exit 0.   tools/refactest.py <dir-with-patch.diff> [Cxx,Cyy]"""
+registered quick check against it; all must exit 0.   tools/refactest.py <dir-with-patch.diff> [Cxx,Cyy]
+   The corpus is /verif/refactorings/<name>/{patch.diff,meta.json} (16 from four refactoring agents, 13 from docs/AUDIT-3.md)."""
 import json, os, subprocess, sys, time
 VERIF = os.path.dirname(os.path.dirname(os.path.abspath(__file__)))
 
@@ -12,8 +13,30 @@ def sh(cmd, cwd=None, env=None):
 
 d = os.path.abspath(sys.argv[1])
 name = os.path.basename(d)
-checks = sys.argv[2].split(',') if len(sys.argv) > 2 else \
-    [c['property_id'] for c in json.load(open(os.path.join(VERIF, 'MANIFEST.json')))['checks']]
+ALL = [c['property_id'] for c in json.load(open(os.path.join(VERIF, 'MANIFEST.json')))['checks']]
+
+
+def relevant(patch):
+    """Properties anchored in (or whose harness imports) a file the patch touches; `all` on the command line = every check."""
+    import re
+    touched = set(re.findall(r'^\+\+\+ b/(\S+)', open(patch).read(), re.M))
+    out = set()
+    for l in open(os.path.join(VERIF, 'properties.jsonl')):
+        pr = json.loads(l)
+        if touched & set(pr['anchors']['files']):
+            out.add(pr['id'])
+    # files almost every check goes through
+    if touched & {'bitcoin/core/serialize.py', 'bitcoin/__init__.py', 'bitcoin/core/__init__.py', 'bitcoin/core/script.py'}:
+        return ALL
+    return sorted(out) or ALL
+
+
+if len(sys.argv) > 2 and sys.argv[2] != 'all':
+    checks = sys.argv[2].split(',')
+elif len(sys.argv) > 2:
+    checks = ALL
+else:
+    checks = relevant(os.path.join(d, 'patch.diff'))
 wt = '/tmp/refaccheck/' + name
 sh('git -C /repo worktree remove --force ' + wt)
 rc, out = sh('mkdir -p /tmp/refaccheck && git -C /repo worktree add --detach %s HEAD' % wt)
